@@ -25,6 +25,8 @@ pub struct CheckArgs {
     pub workers: usize,
     pub deadline_secs: u64,
     pub no_evidence: bool,
+    /// debugging / sensitivity runs: only this world (implies nothing about the others)
+    pub only_world: Option<String>,
 }
 
 #[derive(Default)]
@@ -515,7 +517,7 @@ fn write_replay(rec: &Value) -> PathBuf {
 
 pub fn check_main(worlds: &[World], args: CheckArgs) -> i32 {
     let started = Instant::now();
-    let selected: Vec<&World> = worlds.iter().filter(|w| w.properties.contains(&args.prop.as_str())).collect();
+    let selected: Vec<&World> = worlds.iter().filter(|w| w.properties.contains(&args.prop.as_str())).filter(|w| args.only_world.as_deref().is_none_or(|name| name == w.name)).collect();
     if selected.is_empty() {
         eprintln!("[simctl] no world decides property {}", args.prop);
         return 2;
@@ -789,7 +791,8 @@ pub fn check_main(worlds: &[World], args: CheckArgs) -> i32 {
             "wall_s": wall,
             "violations": new_violations,
         });
-        let dir = verif_root().join("evidence");
+        // VERIF_EVIDENCE_DIR: sensitivity / debugging runs keep their evidence away from /verif/evidence
+        let dir = std::env::var_os("VERIF_EVIDENCE_DIR").map(std::path::PathBuf::from).unwrap_or_else(|| verif_root().join("evidence"));
         let _ = std::fs::create_dir_all(&dir);
         let path = dir.join(format!("{}.json", args.prop));
         if let Err(err) = std::fs::write(&path, serde_json::to_string_pretty(&evidence).unwrap()) {
